@@ -95,6 +95,11 @@ def message(r, d, fc, sub=None, beyond=False, small=False):
             m['address'], m['registers'] = word(r), regs(r, length(r, 0, cap(127 if beyond else 123)))
         elif fc == 20:
             m['records'] = [(word(r), word(r), word(r)) for _ in range(length(r, 0, cap(35)))]
+            if len(m['records']) >= 2 and r.random() < 0.3:
+                # the same record group asked for twice (or all groups equal): every sub-request counts
+                k = r.randrange(len(m['records']))
+                for j in ([r.randrange(len(m['records']))] if r.random() < 0.7 else range(len(m['records']))):
+                    m['records'][j] = m['records'][k]
         elif fc == 21:
             m['records'] = file_records(r, 251, small)
         elif fc == 22:
